@@ -34,7 +34,7 @@ def _cells(rng, scope, dom, zeros=False, lo=1, hi=3):
     return out
 
 
-def mn_instance(rng, iid, shape, maxcard=3, dup=False, unary=False, ternary=False, zeros=False):
+def mn_instance(rng, iid, shape, maxcard=3, dup=False, unary=False, ternary=False, zeros=False, same_scope=None):
     n, edges = MN_SHAPES[shape]
     vs = [f"v{i}" for i in range(n)]
     dom = {v: [f"s{j}" for j in range(rng.choice([2, 2, 3][:maxcard]) if rng.random() < 0.93 else 1)] for v in vs}
@@ -54,6 +54,18 @@ def mn_instance(rng, iid, shape, maxcard=3, dup=False, unary=False, ternary=Fals
             t = rng.choice(tri)
             sc = [vs[i] for i in t]
             facs.append({"scope": sc, "cells": _cells(rng, sc, dom)})
+    if same_scope is None:
+        same_scope = rng.random() < 0.5
+    if same_scope:   # two DIFFERENT factors over the same variables (e.g. a prior and a likelihood): both count
+        f0 = rng.choice(facs)
+        sc = list(f0["scope"])
+        if rng.random() < 0.5:
+            sc.reverse()
+        for _ in range(20):
+            cells = _cells(rng, sc, dom, zeros)
+            if sorted((json.dumps(c["a"], sort_keys=True), c["n"]) for c in cells) != sorted((json.dumps(c["a"], sort_keys=True), c["n"]) for c in f0["cells"]):
+                facs.append({"scope": sc, "cells": cells})
+                break
     if dup:   # value-identical factors on the same scope (must each be used once)
         f0 = rng.choice(facs)
         facs.append(json.loads(json.dumps(f0)))
